@@ -316,9 +316,9 @@ def layer_loader_histories(ctx, n):
         names = ['part.pt', 'main.pt', 'sub/inner.pt', 'other/leaf.pt', 'sub/part.pt', 'only.pt', 'sub/only.pt']
         paths = [[d], [d, os.path.join(d, 'other')], [os.path.join(d, 'other'), d]]
 
-        def call(loader, name, x):
+        def call(loader, name, x, fmt=None):
             try:
-                return loader.load(name)(x=x)
+                return (loader.load(name, fmt) if fmt else loader.load(name))(x=x)
             except Exception as e:
                 return 'RAISED %s' % type(e).__name__
         for case in range(n):
@@ -328,9 +328,10 @@ def layer_loader_histories(ctx, n):
             for step in range(rng.randint(3, 8)):
                 name = rng.choice(names)
                 x = rng.randrange(4)
-                got = call(shared, name, x)
-                want = call(PageTemplateLoader(list(sp)), name, x)
-                hist.append((name, x))
+                fmt = rng.choice([None, None, 'xml', 'text'])     # the same name may be asked for as markup and as text
+                got = call(shared, name, x, fmt)
+                want = call(PageTemplateLoader(list(sp)), name, x, fmt)
+                hist.append((name, x) if fmt is None else (name, x, fmt))
                 ctx.mon('loader-history-renders')
                 if got != want:
                     ctx.violation('shared-loader-history-differs',
